@@ -25,9 +25,9 @@ def sh(cmd, cwd=None, env=None, stdin=None, stdout=None, timeout=None):
 
 
 class LakeLock:
-    """serialise lake builds (several checks may run at once)"""
+    """serialise lake builds (several checks may run at once) per Lean directory"""
     def __enter__(self):
-        self.f = open(os.path.join(VERIF, ".lake.lock"), "w")
+        self.f = open(os.path.join(VERIF, ".lake.lock" if LEAN == os.path.join(VERIF, "lean") else ".lake.lock-" + os.path.basename(LEAN)), "w")
         fcntl.flock(self.f, fcntl.LOCK_EX)
     def __exit__(self, *a):
         fcntl.flock(self.f, fcntl.LOCK_UN)
@@ -89,7 +89,7 @@ def grep_forbidden():
 def run_translators(cfg):
     msgs = []
     for t in cfg["translators"]:
-        r = sh([sys.executable, os.path.join(VERIF, "translators", t + ".py")], cwd=VERIF, env={"VERIF_REPO": REPO})
+        r = sh([sys.executable, os.path.join(VERIF, "translators", t + ".py")], cwd=VERIF, env={"VERIF_REPO": REPO, "VERIF_LEAN_DIR": LEAN})
         if r.returncode != 0:
             msgs.append("translator %s failed: %s" % (t, r.stdout[-2000:]))
     return msgs
@@ -272,7 +272,7 @@ def find_crash(cmd, outp, env, stdin_file, rc, err):
 def use_alt_repo(path):
     """run against a scratch worktree of /repo (mutation testing): a copy of the harness whose path
     dependencies point at the worktree, its own cargo target dir, evidence/replays kept out of /verif's"""
-    global REPO, HARNESS, TARGET, ALT
+    global REPO, HARNESS, TARGET, ALT, LEAN
     tag = re.sub(r"[^A-Za-z0-9]+", "-", path).strip("-")
     REPO = path
     ALT = tag
@@ -284,6 +284,12 @@ def use_alt_repo(path):
         open(f, "w").write(txt)
     HARNESS = h2
     TARGET = os.path.join(VERIF, ".target-" + tag)
+    # own copy of the Lean project (with its build output), so that tables regenerated from the scratch
+    # worktree never touch /verif/lean and several --repo runs can go on at once
+    l2 = os.path.join(VERIF, ".work", "lean-" + tag)
+    with LakeLock():
+        subprocess.run(["rsync", "-a", "--delete", LEAN + "/", l2 + "/"], check=True)
+    LEAN = l2
 
 
 ALT = None
